@@ -47,13 +47,17 @@ theorem siftdownLoop_eq (fG : Nat) : ∀ (l : List α) (sI pI : Int) (sp pos : N
         decide_ifs
         have hget : l.toArray[(pos - 1) / 2]! = l[(pos - 1) / 2] := by simp [hparl]
         simp only [hget]
-        by_cases hlt : lt x l[(pos - 1) / 2] = true
-        · simp only [hlt, if_true]
+        cases hlt : lt x l[(pos - 1) / 2] with
+        | true =>
+          try simp only [hlt]
+          try decide_ifs
           obtain ⟨h', p', h1, h2, h3, h4⟩ := ih (l.set pos l[(pos - 1) / 2]) sI ((pI - 1) / 2) sp ((pos - 1) / 2) x fC
             hs hpar (by simp; omega) (by omega) (by omega) (by omega)
           refine ⟨h', p', h1, h2, by simpa using h3, ?_⟩
           rw [h4]; simp
-        · simp only [hlt, if_false, Bool.false_eq_true]
+        | false =>
+          try simp only [hlt]
+          try decide_ifs
           exact ⟨l, pos, by rw [hp], hl, rfl, by simp⟩
       · decide_ifs
         exact ⟨l, pos, by rw [hp], hl, rfl, by simp⟩
